@@ -545,6 +545,11 @@ pub fn generate(sink: &mut Sink, rng: &mut Rng, n: u64, with_faults: bool, oracl
             }
             s
         };
+        if crate::typed::risky_alloc(&src) {
+            // `"s" * <huge>` aborts the process on the allocation (C04/C11 known finding), not a panic
+            sink.count("lang:skipped_huge_repeat");
+            continue;
+        }
         if vrlrun::compile(&src).is_err() {
             sink.count("lang:rejected_by_compiler");
             continue;
